@@ -3,7 +3,12 @@
  *        build an archive through ZSTD_seekable_compressStream / endFrame / endStream under a call history -> hex archive
  *   tbl <hex-archive>            load (memory mode); print numFrames and, for i in 0..n+1, cOff:dOff:cSize:dSize (E = error)
  *   idx <hex-archive> <pos,...>  ZSTD_seekable_offsetToFrameIndex at each position
- *   rd <mode b|f|c> <hex-archive> <off:len,...>   range reads through memory / FILE* / custom callbacks: per read "n:hash" or "E:class" */
+ *   rd <mode b|f|c> <hex-archive> <off:len,...>   range reads through memory / FILE* / custom callbacks: per read "n:hash" or "E:class"
+ *   mk ... <prior> stat          (optional 9th field) the archive is followed by " partial=<p> calls=<c>": p = ZSTD_seekable_compressStream calls in which the inner
+ *        compressor took LESS than the part of the chunk offered to it for the current frame (the caller re-presents the rest), c = all such calls
+ *   cks <hex-archive>            the seek table's entries read from the raw bytes, each frame decoded on its own by a regular decoder and through
+ *        ZSTD_seekable_decompressFrame: "ok n=<frames> ck=<flag> e=<dSize:storedChecksum,...> bad=<frames whose slice does not decode to dSize bytes or whose
+ *        stored checksum is not the low 32 bits of XXH64 of those bytes> rdbad=<frames the seekable reader refuses or returns differently>" */
 #include "zvh_common.h"
 #include <unistd.h>
 #include <signal.h>
@@ -16,6 +21,7 @@ static int cb_read(void* o, void* buf, size_t n) { membuf_t* m = (membuf_t*)o; i
 static int cb_seek(void* o, long long off, int origin) { membuf_t* m = (membuf_t*)o; long long np = origin == SEEK_SET ? off : origin == SEEK_CUR ? (long long)m->pos + off : (long long)m->size + off;
     if (np < 0 || (unsigned long long)np > m->size) return -1; m->pos = (size_t)np; return 0; }
 
+static unsigned rd32(const unsigned char* p) { return (unsigned)p[0] | ((unsigned)p[1] << 8) | ((unsigned)p[2] << 16) | ((unsigned)p[3] << 24); }
 static size_t parse_csv(char* s, size_t* a, size_t max) { size_t n = 0; char* sv; char* t; for (t = strtok_r(s, ",", &sv); t && n < max; t = strtok_r(NULL, ",", &sv)) a[n++] = (size_t)strtoull(t, NULL, 10); return n; }
 
 int main(void) {
@@ -27,9 +33,11 @@ int main(void) {
             int level = atoi(strtok(NULL, " ")); unsigned mfs = (unsigned)strtoul(strtok(NULL, " "), NULL, 10); int ck = atoi(strtok(NULL, " ")); size_t n; unsigned char* in = zv_unhex(strtok(NULL, " "), &n);
             size_t ic[64], oc[64]; size_t ni = parse_csv(strtok(NULL, " "), ic, 64), no = parse_csv(strtok(NULL, " "), oc, 64); size_t every = (size_t)strtoull(strtok(NULL, " "), NULL, 10);
             size_t cap = ZSTD_compressBound(n) + 64 * (n / (mfs ? mfs : n + 1) + n / (every ? every : n + 1) + 16) + 4096 + 2 * n, produced = 0, consumed = 0, r = 0, ii = 0, oi = 0, sinceEnd = 0; unsigned char* out = (unsigned char*)malloc(cap);
-            ZSTD_seekable_CStream* zcs = ZSTD_seekable_createCStream(); int guard = 0;
+            ZSTD_seekable_CStream* zcs = ZSTD_seekable_createCStream(); int guard = 0; int wantStat = 0;
+            size_t const mfsEff = mfs ? mfs : ZSTD_SEEKABLE_MAX_FRAME_DECOMPRESSED_SIZE; size_t frameD = 0, g_calls = 0, g_partial = 0;
             {   /* optional 8th field: an earlier session on the SAME object that consumed <prior> bytes and was abandoned (no endFrame / endStream) */
                 char* pr = strtok(NULL, " "); size_t prior = pr ? (size_t)strtoull(pr, NULL, 10) : 0;
+                { char* st = pr ? strtok(NULL, " ") : NULL; wantStat = st && !strcmp(st, "stat"); }
                 if (prior) { ZSTD_inBuffer ib; ZSTD_outBuffer ob; size_t scap = ZSTD_compressBound(prior) + 4096; unsigned char* scratch = (unsigned char*)malloc(scap);
                     ZSTD_seekable_initCStream(zcs, level, ck, mfs ? mfs : 0);
                     ib.src = in; ib.size = prior < n ? prior : n; ib.pos = 0; ob.dst = scratch; ob.size = scap; ob.pos = 0;
@@ -41,12 +49,16 @@ int main(void) {
                 if (isz > n - consumed) isz = n - consumed; if (osz > cap - produced) osz = cap - produced;
                 ib.src = in + consumed; ib.size = isz; ib.pos = 0; ob.dst = out + produced; ob.size = osz; ob.pos = 0;
                 r = ZSTD_seekable_compressStream(zcs, &ob, &ib); if (ZSTD_isError(r)) break;
+                {   /* frameD mirrors zcs->frameDSize: a full frame stays pending until its end is flushed (calls that take nothing), the next bytes taken open a new one */
+                    if (frameD >= mfsEff && ib.pos > 0) frameD = 0;
+                    if (frameD < mfsEff) { size_t const room = mfsEff - frameD, offered = isz < room ? isz : room; g_calls++; if (ib.pos < offered) g_partial++; frameD += ib.pos; } }
                 consumed += ib.pos; produced += ob.pos; sinceEnd += ib.pos;
+                if (every && sinceEnd >= every) frameD = 0;
                 if (every && sinceEnd >= every) { do { size_t o2 = oc[oi++ % no]; if (o2 > cap - produced) o2 = cap - produced; if (!o2) o2 = 1; ob.dst = out + produced; ob.size = o2; ob.pos = 0; r = ZSTD_seekable_endFrame(zcs, &ob); produced += ob.pos; } while (!ZSTD_isError(r) && r != 0 && guard++ < 50000000); sinceEnd = 0; }
             }
             while (!ZSTD_isError(r) && guard++ < 50000000) { ZSTD_outBuffer ob; size_t osz = oc[oi++ % no]; if (osz > cap - produced) osz = cap - produced; if (!osz) osz = 1; ob.dst = out + produced; ob.size = osz; ob.pos = 0;
                 r = ZSTD_seekable_endStream(zcs, &ob); produced += ob.pos; if (r == 0) break; }
-            if (ZSTD_isError(r)) printf("err %s\n", zv_errclass(r)); else { zv_puthex(out, produced); putchar('\n'); }
+            if (ZSTD_isError(r)) printf("err %s\n", zv_errclass(r)); else { zv_puthex(out, produced); if (wantStat) printf(" partial=%zu calls=%zu", g_partial, g_calls); putchar('\n'); }
             ZSTD_seekable_freeCStream(zcs); free(in); free(out);
         } else if (!strcmp(op, "tbl") || !strcmp(op, "idx")) {
             size_t n; unsigned char* in = zv_unhex(strtok(NULL, " "), &n); ZSTD_seekable* zs = ZSTD_seekable_create(); size_t r = ZSTD_seekable_initBuff(zs, in, n);
@@ -72,6 +84,22 @@ int main(void) {
                       if (ZSTD_isError(got)) printf(" E:%s", zv_errclass(got)); else printf(" %zu:%016llx", got, (unsigned long long)XXH64(dst, got, 0)); free(dst); } }
                 printf("\n"); }
             ZSTD_seekable_free(zs); if (f) fclose(f); free(in);
+        } else if (!strcmp(op, "cks")) {
+            size_t n; unsigned char* in = zv_unhex(strtok(NULL, " "), &n);
+            if (n < 17 || rd32(in + n - 4) != ZSTD_SEEKABLE_MAGICNUMBER) printf("err no-seek-table\n");
+            else { unsigned const sfd = in[n - 5], ckf = sfd >> 7, nf = rd32(in + n - 9), per = ckf ? 12 : 8; unsigned long long const tsz = (unsigned long long)per * nf + 17;
+                if (tsz > n) printf("err table-larger-than-archive\n");
+                else { const unsigned char* e = in + (n - (size_t)tsz) + 8; unsigned i, bad = 0, rdbad = 0; unsigned long long coff = 0; ZSTD_seekable* zs = ZSTD_seekable_create(); size_t const ir = ZSTD_seekable_initBuff(zs, in, n);
+                    printf("ok n=%u ck=%u e=", nf, ckf);
+                    for (i = 0; i < nf; i++, e += per) { unsigned const c = rd32(e), d = rd32(e + 4), stored = ckf ? rd32(e + 8) : 0; unsigned char* dst = (unsigned char*)malloc(d ? d : 1); unsigned char* dst2 = (unsigned char*)malloc(d ? d : 1);
+                        size_t const r = (coff + c <= n - tsz) ? ZSTD_decompress(dst, d, in + coff, c) : (size_t)-1;
+                        printf("%s%u:%u", i ? "," : "", d, stored);
+                        if (ZSTD_isError(r) || r != d || (ckf && (unsigned)(XXH64(dst, d, 0) & 0xFFFFFFFFU) != stored)) bad++;
+                        {   size_t const r2 = ZSTD_isError(ir) ? ir : ZSTD_seekable_decompressFrame(zs, dst2, d, i);      /* the reader verifies the frame's checksum itself */
+                            if (ZSTD_isError(r2) || r2 != d || (!ZSTD_isError(r) && r == d && memcmp(dst, dst2, d))) rdbad++; }
+                        free(dst); free(dst2); coff += c; }
+                    printf(" bad=%u rdbad=%u\n", bad, rdbad); ZSTD_seekable_free(zs); } }
+            free(in);
         } else if (!strcmp(op, "xxhr")) {
             /* xxhr <hex> <off:len,...> : expected hashes of ranges of a buffer */
             size_t n; unsigned char* in = zv_unhex(strtok(NULL, " "), &n); char* reads = strtok(NULL, " "); char* sv; char* t; printf("ok");
